@@ -242,6 +242,8 @@ type RestrictedPrefixPermutationIterator struct {
 
 	l []int
 	u []int
+
+	done bool
 }
 
 //RestrictedPrefixPermutations returns an iterator which iterates over all permutations a_1 a_2 ... a_n of {0, ..., n-1} which pass the tests f([]int{a_1}), f([]int{a_1,a_2}) ... f([]int{a_1,...,a_n}).
@@ -266,6 +268,10 @@ func (iter *RestrictedPrefixPermutationIterator) Next() bool {
 	k := n - 1
 	p := 0
 	q := 0
+
+	if iter.done {
+		return false
+	}
 
 	//Initialise
 	if iter.a == nil {
@@ -309,6 +315,7 @@ x5:
 x6:
 	k--
 	if k < 0 {
+		iter.done = true
 		return false
 	}
 	p = iter.u[k]
